@@ -30,8 +30,10 @@ so  TOL_FEAS = 300 s (3e-5; margin 265x; quara's own simulation check uses 1e-5)
 backtracking 1e-3 (squared error, 165x) / 2e-2 (relative entropy, 194x).  A projection that is skipped, mis-selected, or applied to the wrong
 point leaves residuals of 1e-2 .. 1 on the few-shot and far-out-of-range data (checked with mutated copies of the tree).
   * both options on, on_para_eq_constraint=False: defect of the constraint projected LAST in the option's order (estimate and stored iterates):
-    6.7e-14 at most (the other constraint: 4e-8 .. 1.1e-7) -> REF_FACTOR = 100.0         # |quara projection - independent reference projection| <= REF_FACTOR * sqrt(eps_proj_physical)  (1e-5; observed <= 7e-8)
-TOL_LAST = 1e-11 (150x margin; a run in the wrong order is 4000x above it)
+    6.7e-14 at most (the other constraint: 4e-8 .. 1.1e-7) -> TOL_LAST = 1e-11 (150x margin; a run in the wrong order is 4000x above it)
+  * |quara projection - independent reference projection| <= 8.5e-8 = 0.85 sqrt(eps) at the default eps_proj_physical = 1e-14 -> REF_FACTOR = 100;
+    with a tomography built with eps_proj_physical = 1e-18 (EPS_TIGHT): <= 0.5 sqrt(eps) -> REF_FACTOR_TIGHT = 10 (a run that stops at the default
+    threshold is at 20 .. 85 sqrt(eps))
 Scope: physicality is judged per constraint option that is ON (both on = the property's "constraint options on"; one on = that constraint only).
 The combination (on_algo_eq_constraint=False, on_algo_ineq_constraint=True) under on_para_eq_constraint=True is NOT judged: it is not a
 configuration "with the constraint options on", and the installed variable-level inequality projection provably leaves the PSD set
@@ -712,9 +714,9 @@ def gen_estimate_cases(ctx):
                 for data, shots in datas:
                     if quick:
                         # the quick tier samples the grid (every run another sample; the thorough tier runs all of it)
-                        keep = 0.2 if small else (0.04 if heavy else 0.12)
+                        keep = 0.16 if small else (0.04 if heavy else 0.1)
                         if data == "exact" and algo == "bt":
-                            keep = 0.7 if small else (0.12 if heavy else 0.4)
+                            keep = 0.55 if small else (0.12 if heavy else 0.35)
                         if rng.random() >= keep:
                             continue
                     elif heavy and rng.random() >= 0.15:
@@ -726,7 +728,7 @@ def gen_estimate_cases(ctx):
                         fl = [True, False]
                     elif r < 0.24 and not para:
                         fl = [False, True]          # under on_para_eq_constraint=True this combination is outside the property (see chk_estimate)
-                    maxit = (40 if small else (15 if heavy else 25)) if quick else (300 if small else 120)
+                    maxit = (40 if small else (15 if heavy else 25)) if quick else (200 if small else (60 if heavy else 100))
                     if data == "exact" and algo == "bt":
                         maxit = max(maxit, 200)
                     if quick and heavy:
@@ -743,6 +745,7 @@ def gen_estimate_cases(ctx):
                         # stop on a loss INCREASE can diverge with relative entropy, and then each projection runs into its cap (known finding C10-4; minutes
                         # with the default cap): thorough tier only, with an explicit cap
                         cases[-1]["opts"] = dict(mode=rng.choice(STOP_MODES), h=rng.choice([1, 2, 3]), cap=None if algo == "bt" else 500)
+                        cases[-1]["maxit"] = min(cases[-1]["maxit"], 60)          # modes that never fire run to the cap
     if not quick:
         # deterministic witness of known finding C10-4 (11 s)
         add(kind="qmpt", sys="1qubit", m=3, para=False, truth="interior", data="fewshot", shots=10, est="lme", algo="mom", loss="wre", order="eq_ineq",
@@ -992,8 +995,10 @@ def chk_reuse(ctx, case):
                               kind, case["algo"], case["loss"], para, flags, case["data"], bad, er, me, tol), jc)
             return
     # LossMinimizationEstimator.calc_estimate_sequence over DIFFERENT data sets == element-wise estimates of fresh objects (last experiment)
+    if ctx.quick and int(case["id"][1:]) % 2:
+        return          # quick tier: the sequence call on every second case
     truth2 = true_object(rng, kind, sysname, c_sys, para, "boundary", m=case.get("m"))
-    seq = [empi, empi_from(qt, truth2, rng, "fewshot", 3), empi_from(qt, truth2, rng, "far", 5)]
+    seq = [empi, empi_from(qt, truth2, rng, "fewshot", 3)] + ([] if ctx.quick else [empi_from(qt, truth2, rng, "far", 5)])
     opt = AO(on_algo_eq_constraint=True, on_algo_ineq_constraint=True, mode_proj_order=order, max_iteration_optimization=case["maxit"])
     with quiet():
         rs = est.calc_estimate_sequence(qt, seq, loss, lopt, algo, opt)
@@ -1003,7 +1008,7 @@ def chk_reuse(ctx, case):
         ctx.count("reuse", key=(case["id"], "seq", si_), nontrivial=True, label="lme:sequence-call:%s" % ("same-as-elementwise" if same else "differs"))
         if not same:
             ctx.violation("reuse", "LossMinimizationEstimator.calc_estimate_sequence", "sequence-differs-from-elementwise",
-                          "%s %s/%s para=%s: element %d of calc_estimate_sequence over 3 data sets is %s, the estimate of that data set alone is %s" % (
+                          "%s %s/%s para=%s: element %d of calc_estimate_sequence over several data sets is %s, the estimate of that data set alone is %s" % (
                               kind, case["algo"], case["loss"], para, si_, [float(t) for t in rs.estimated_var_sequence[si_]][:6], [float(t) for t in fr.estimated_var][:6]), dict(case, focus_seq=si_))
             return
 
